@@ -9,7 +9,6 @@ import (
 	"path/filepath"
 	"strings"
 
-	"github.com/sanonone/kektordb/internal/verifkit"
 	"pgregory.net/rapid"
 )
 
@@ -28,6 +27,8 @@ type c19Req struct {
 type c19Case struct {
 	Restart bool     `json:"restart"` // close + reopen the engine after the sequence and compare the tree again
 	Reqs    []c19Req `json:"reqs"`
+
+	excluded []string // known-finding exclusions that fired while generating (not part of the case data)
 }
 
 const (
@@ -642,6 +643,7 @@ func (g *c19G) request(r c19Route, scenarioName string, allowMut bool) c19Req {
 			break
 		}
 	}
+	g.applyKnown(r, fs)
 	req.Body, req.Gen = c19Finish(fs)
 	return c19Sanitise(req)
 }
@@ -718,6 +720,7 @@ func c19GenCase() *rapid.Generator[c19Case] {
 			if name == "" {
 				name = "."
 			}
+			name = g.knownName(name)
 			mk := func(method, path string, mut bool) c19Req {
 				r := g.request(c19RouteByPath(method, path), name, mut)
 				return r
@@ -753,30 +756,12 @@ func c19GenCase() *rapid.Generator[c19Case] {
 				c.Reqs = append(c.Reqs, g.request(g.weightedRoute(), "", true))
 			}
 		}
+		c.excluded = g.excluded
 		return c
 	})
 }
 
-// c19ApplyKnown rewrites the shapes of known findings out of a generated case
-// (unless VERIF_NOEXCLUDE lists them) and returns the findings that fired.
-func c19ApplyKnown(c *c19Case) []string {
-	var fired []string
-	for i := range c.Reqs {
-		for _, k := range c19KnownShapes {
-			if !verifkit.Known(k.name) {
-				continue
-			}
-			if k.rewrite(&c.Reqs[i]) {
-				fired = append(fired, k.name)
-			}
-		}
-	}
-	return fired
+// c19IsCreate reports whether the route creates an index from a body-supplied name.
+func c19IsCreate(r c19Route) bool {
+	return r.Method == "POST" && (r.Path == "/vector/indexes" || r.Path == "/vector/actions/create")
 }
-
-type c19KnownShape struct {
-	name    string
-	rewrite func(r *c19Req) bool // true if the request had the shape and was rewritten
-}
-
-var c19KnownShapes []c19KnownShape // filled in c19_known_test.go
